@@ -102,6 +102,7 @@ func main() {
 	cw, iw := bufio.NewWriterSize(cf, 1<<20), bufio.NewWriterSize(imf, 1<<20)
 	rep := report{Property: p.ID, Seed: *seed, Tier: *tier, Rule: p.Rule, Tags: map[string]int{}, KnownHits: map[string]int{}, Failures: []failure{}, Samples: []string{}}
 	seen := map[[16]byte]bool{}
+	unknownKept := 0
 	handle := func(line string) {
 		sc0 := scribbleCalls
 		o, err := runOne(p, line)
@@ -138,7 +139,12 @@ func main() {
 			if o.Known != "" {
 				rep.KnownHits[o.Known]++
 			}
-			if len(rep.Failures) < 200 {
+			// failures that are exactly a listed finding are kept in small number only, so that they never
+			// crowd out one that is not
+			if (o.Known == "" && unknownKept < 200) || (o.Known != "" && rep.KnownHits[o.Known] <= 10) {
+				if o.Known == "" {
+					unknownKept++
+				}
 				rep.Failures = append(rep.Failures, failure{Case: line, Why: o.Fail, Known: o.Known, Impl: impl})
 			}
 		}
